@@ -132,6 +132,15 @@ def scanF : Nat → Text → List FTok
 
 def scan (s : Text) : List FTok := scanF s.length s
 
+/-- The scanner reads the formulas of these cells back as the tokens they were written from (this is
+    what ties the token lists of the abstract workbook to the text the translator works on). -/
+def scanOK (cells : List SCell) : Bool :=
+  cells.all fun c =>
+    match c.formula with
+    | some (.plain toks) => scan (renderToks toks) == toks
+    | some (.master _ toks) => scan (renderToks toks) == toks
+    | _ => true
+
 /-- `Translator.translate_row` / `translate_col`: a `$` coordinate stays, another one moves by the
     delta (`TranslatorError` when it would leave the sheet: not a SpreadsheetML file). -/
 def translateCoord (abs : Bool) (x : Nat) (delta : Int) : Nat :=
